@@ -225,4 +225,28 @@ example : evalPass exOps (fun _ => 0) exEqs exStore 3 "Y" 3 = 21 ∧ evalPass ex
 example : (evalPassR exOps (fun _ => 0) 3 exEqs exStore).2 = ([("X", 2), ("Y", 3), ("Y", 3)], [("Y", 3), ("Z", 3)]) := by
   decide
 
+/-! ### Symbol-list order of the statements of `_evaluate` -/
+
+/-- For a program whose statements parse and define distinct variables, the statements of `_evaluate` are exactly
+    the script's statements … -/
+theorem evaluate_order_members (stmts : List (List (Tok SAtom)))
+    (hwf : ∀ ts ∈ stmts, ∃ eq, parseStmt ts = some eq)
+    (hdistinct : ∀ ts ∈ stmts, ∀ ts' ∈ stmts, lhsName ts = lhsName ts' → ts = ts')
+    (ts : List (Tok SAtom)) : ts ∈ orderStmts stmts ↔ ts ∈ stmts :=
+  mem_orderStmts stmts hwf hdistinct ts
+
+/-- … arranged by first appearance of their left-hand-side names anywhere in the script (NOT statement order):
+    the LHS names of `orderStmts` form a sublist of the symbol list. -/
+theorem evaluate_order_sorted (stmts : List (List (Tok SAtom))) :
+    List.Sublist ((orderStmts stmts).filterMap lhsName) (symbolOrder stmts) :=
+  orderStmts_sorted stmts
+
+private def exOrder : List (List (Tok SAtom)) :=
+  [[.atom ⟨.var, "A", .rel 0⟩, .chunk "=", .atom ⟨.var, "B", .rel 0⟩, .chunk "+", .atom ⟨.var, "C", .rel 0⟩],
+   [.atom ⟨.var, "C", .rel 0⟩, .chunk "=", .atom ⟨.var, "A", .rel 0⟩, .chunk "*", .chunk "2"],
+   [.atom ⟨.var, "B", .rel 0⟩, .chunk "=", .atom ⟨.var, "C", .rel (-1)⟩]]
+
+/-- Non-vacuity: `A = B + C; C = A * 2; B = C[-1]` runs as A, B, C. -/
+example : symbolOrder exOrder = ["A", "B", "C"] ∧ (orderStmts exOrder).filterMap lhsName = ["A", "B", "C"] := by decide
+
 end Fsic.C01
